@@ -8,6 +8,8 @@ defines a fresh symbol as a total function of existing terms.
 """
 import z3
 
+from .values import tid
+
 SLASH = z3.StringVal('/')
 EMPTY = z3.StringVal('')
 
@@ -81,6 +83,29 @@ def pieces(t):
     return merged
 
 
+def set_alias(ctx, t, structured):
+    """record that term t equals the structured term (the caller has assumed
+    the equality); structural helpers then look through t"""
+    ctx.notes.setdefault('aliases', {})[tid(t)] = structured
+
+
+def cpieces(ctx, t):
+    """pieces with aliases expanded"""
+    al = ctx.notes.get('aliases') if ctx is not None else None
+    ps = pieces(t)
+    if not al:
+        return ps
+    out = []
+    changed = False
+    for p in ps:
+        if tid(p) in al:
+            out.extend(cpieces(ctx, al[tid(p)]))
+            changed = True
+        else:
+            out.append(p)
+    return pieces(cat(out)) if changed else ps
+
+
 def cat(ps):
     from .values import canon_str
     ps = [p for p in ps if lit(p) != '']
@@ -92,59 +117,59 @@ def cat(ps):
 
 
 def mark_noslash(ctx, t):
-    ctx.notes.setdefault('noslash', set()).add(t.get_id())
+    ctx.notes.setdefault('noslash', set()).add(tid(t))
 
 
 def mark_nonempty(ctx, t):
-    ctx.notes.setdefault('nonempty', set()).add(t.get_id())
+    ctx.notes.setdefault('nonempty', set()).add(tid(t))
 
 
 def mark_noendslash(ctx, t):
     """t is non-empty and does not end with '/' (caller has assumed it)"""
-    ctx.notes.setdefault('noendslash', set()).add(t.get_id())
-    ctx.notes.setdefault('nonempty', set()).add(t.get_id())
+    ctx.notes.setdefault('noendslash', set()).add(tid(t))
+    ctx.notes.setdefault('nonempty', set()).add(tid(t))
 
 
 def mark_slashes1(ctx, t):
     """t is a non-empty run of '/' (caller has assumed it)"""
-    ctx.notes.setdefault('slashes1', set()).add(t.get_id())
-    ctx.notes.setdefault('nonempty', set()).add(t.get_id())
+    ctx.notes.setdefault('slashes1', set()).add(tid(t))
+    ctx.notes.setdefault('nonempty', set()).add(tid(t))
 
 
 def _sl1(ctx, t):
-    return ctx is not None and t.get_id() in ctx.notes.get('slashes1', ())
+    return ctx is not None and tid(t) in ctx.notes.get('slashes1', ())
 
 
 def _nes(ctx, t):
-    i = t.get_id()
+    i = tid(t)
     return i in ctx.notes.get('noendslash', ()) or (
         i in ctx.notes.get('noslash', ()) and i in ctx.notes.get('nonempty', ()))
 
 
 def noslash(ctx, t):
-    for p in pieces(t):
+    for p in cpieces(ctx, t):
         l = lit(p)
         if l is not None:
             if '/' in l:
                 return False
-        elif p.get_id() not in ctx.notes.get('noslash', ()):
+        elif tid(p) not in ctx.notes.get('noslash', ()):
             return False
     return True
 
 
 def nonempty(ctx, t):
-    for p in pieces(t):
+    for p in cpieces(ctx, t):
         l = lit(p)
         if l:
             return True
-        if l is None and p.get_id() in ctx.notes.get('nonempty', ()):
+        if l is None and tid(p) in ctx.notes.get('nonempty', ()):
             return True
     return False
 
 
 def mark_digits(ctx, t):
     """t is a non-empty string of decimal digits (caller has assumed it)"""
-    ctx.notes.setdefault('digits', set()).add(t.get_id())
+    ctx.notes.setdefault('digits', set()).add(tid(t))
     mark_noslash(ctx, t)
     mark_nonempty(ctx, t)
 
@@ -152,7 +177,7 @@ def mark_digits(ctx, t):
 def definitely_different(ctx, a, b):
     """cheap structural test: True only if a != b for sure (first or last
     characters differ by construction)"""
-    pa, pb = pieces(a), pieces(b)
+    pa, pb = cpieces(ctx, a), cpieces(ctx, b)
     if not pa or not pb:
         return (nonempty(ctx, a) if not pb else nonempty(ctx, b)) \
             if (not pa) != (not pb) else False
@@ -162,9 +187,9 @@ def definitely_different(ctx, a, b):
         n = min(len(la), len(lb))
         if la[-n:] != lb[-n:]:
             return True
-    if la is not None and pb[-1].get_id() in dig and not la[-1].isdigit():
+    if la is not None and tid(pb[-1]) in dig and not la[-1].isdigit():
         return True
-    if lb is not None and pa[-1].get_id() in dig and not lb[-1].isdigit():
+    if lb is not None and tid(pa[-1]) in dig and not lb[-1].isdigit():
         return True
     fa, fb = lit(pa[0]), lit(pb[0])
     if fa is not None and fb is not None:
@@ -181,11 +206,11 @@ def split_last_slash(ctx, p):
     if l is not None:
         i = l.rfind('/') + 1
         return z3.StringVal(l[:i]), z3.StringVal(l[i:])
-    key = ('split_last', p.get_id())
+    key = ('split_last', tid(p))
     if key in ctx.notes:
         return ctx.notes[key]
     # structural fast path
-    ps = pieces(p)
+    ps = cpieces(ctx, p)
     tail = []
     k = len(ps) - 1
     res = None
@@ -199,7 +224,7 @@ def split_last_slash(ctx, p):
                        cat([z3.StringVal(lx[i:])] + tail))
                 break
             tail.insert(0, x)
-        elif x.get_id() in ctx.notes.get('noslash', ()):
+        elif tid(x) in ctx.notes.get('noslash', ()):
             tail.insert(0, x)
         elif _sl1(ctx, x):
             res = (cat(ps[:k + 1]), cat(tail))
@@ -230,10 +255,10 @@ def rstrip_slashes(ctx, h):
     l = lit(h)
     if l is not None:
         return z3.StringVal(l.rstrip('/'))
-    key = ('rstrip', h.get_id())
+    key = ('rstrip', tid(h))
     if key in ctx.notes:
         return ctx.notes[key]
-    ps = pieces(h)
+    ps = cpieces(ctx, h)
     res = None
     while ps:
         lx = lit(ps[-1])
@@ -254,7 +279,7 @@ def rstrip_slashes(ctx, h):
         res = EMPTY
     if res is None:
         base = cat(ps)
-        bkey = ('rstrip', base.get_id())
+        bkey = ('rstrip', tid(base))
         if bkey in ctx.notes:
             res = ctx.notes[bkey]
         else:
@@ -271,7 +296,7 @@ def rstrip_slashes(ctx, h):
 
 def all_slashes(ctx, h):
     """z3 Bool: h consists of '/' only (includes '')"""
-    for p in pieces(h):
+    for p in cpieces(ctx, h):
         l = lit(p)
         if l is not None and l.strip('/'):
             return z3.BoolVal(False)
@@ -299,26 +324,26 @@ def dirname(ctx, p):
 
 def starts_with_slash(ctx, b):
     """True / False / None (unknown syntactically)"""
-    ps = pieces(b)
-    if not ps:
-        return False
-    l = lit(ps[0])
-    if l is not None:
-        return l.startswith('/')
-    if _sl1(ctx, ps[0]):
-        return True
-    if ctx is not None and ps[0].get_id() in ctx.notes.get('noslash', ()):
-        if ps[0].get_id() in ctx.notes.get('nonempty', ()):
-            return False
-        # empty first piece: look at the rest
-        if len(ps) == 1:
-            return False
+    for p in cpieces(ctx, b):
+        l = lit(p)
+        if l is not None:
+            if l == '':
+                continue
+            return l.startswith('/')
+        if _sl1(ctx, p):
+            return True
+        if ctx is not None and tid(p) in ctx.notes.get('noslash', ()):
+            if tid(p) in ctx.notes.get('nonempty', ()):
+                return False
+            continue      # possibly empty, but contributes no slash
+        if ctx is not None and tid(p) in ctx.notes.get('noendslash', ()):
+            return None
         return None
-    return None
+    return False
 
 
 def ends_with_slash_or_empty(ctx, a):
-    ps = pieces(a)
+    ps = cpieces(ctx, a)
     if not ps:
         return True
     l = lit(ps[-1])
@@ -338,9 +363,9 @@ def join2(a, b, ctx=None):
         return b
     es = ends_with_slash_or_empty(ctx, a)
     if es is True:
-        inner = cat(pieces(a) + pieces(b))
+        inner = cat(cpieces(ctx, a) + cpieces(ctx, b))
     elif es is False:
-        inner = cat(pieces(a) + [SLASH] + pieces(b))
+        inner = cat(cpieces(ctx, a) + [SLASH] + cpieces(ctx, b))
     else:
         inner = z3.If(z3.Or(a == EMPTY, z3.SuffixOf(SLASH, a)),
                       z3.Concat(a, b), z3.Concat(a, SLASH, b))
@@ -399,7 +424,7 @@ def normpath(ctx, p):
     if l is not None:
         import posixpath
         return z3.StringVal(posixpath.normpath(l))
-    key = ('normpath', p.get_id())
+    key = ('normpath', tid(p))
     if key in ctx.notes:
         return ctx.notes[key]
     r = normpath_f(p)
@@ -415,10 +440,20 @@ def normpath(ctx, p):
     ctx.assume(z3.PrefixOf(SLASH, r) == z3.PrefixOf(SLASH, p))
     # trailing slashes are irrelevant: normpath(q + '/'*k) = normpath(q)
     q = rstrip_slashes(ctx, p)
-    if q.get_id() != p.get_id():
+    if tid(q) != tid(p):
         ctx.assume(z3.Implies(q != EMPTY, r == normpath_f(q)))
+    # the last component of the result is '.' or '..' only if the last
+    # component of the argument (trailing slashes ignored) is, or p is ''
+    _hr, tr = split_last_slash(ctx, r)
+    _hq, tq = split_last_slash(ctx, q)
+    dot, dd = z3.StringVal('.'), z3.StringVal('..')
+    ctx.assume(z3.Implies(z3.Or(tr == dot, tr == dd),
+                          z3.Or(tq == dot, tq == dd, p == EMPTY)))
     # case split on the shape of the result so that later joins/dirnames
     # stay structural: '/', '//' or a path without trailing slash
+    if ctx.ghost.get('normpath_no_shape_fork'):
+        ctx.notes[key] = r
+        return r
     d = ctx.fork([r == SLASH, r == z3.StringVal('//'),
                   z3.And(r != SLASH, r != z3.StringVal('//'))], 'normpath-shape')
     if d == 0:
@@ -431,9 +466,11 @@ def normpath(ctx, p):
         _h, t = split_last_slash(ctx, r)
         ctx.assume(z3.Or(r == z3.StringVal('.'),
                          z3.And(t != EMPTY, t != z3.StringVal('.'))))
+        ctx.assume(t != EMPTY)
+        mark_nonempty(ctx, t)
         res = r
     ctx.notes[key] = res
-    ctx.notes[('normpath', res.get_id())] = res     # idempotent
+    ctx.notes[('normpath', tid(res))] = res     # idempotent
     return res
 
 
@@ -451,7 +488,7 @@ def is_abs_clean(p):
 
 def abspath(ctx, p):
     r = abspath_f(p)
-    key = ('abspath', p.get_id())
+    key = ('abspath', tid(p))
     if key not in ctx.notes:
         ctx.notes[key] = True
         ctx.used_axioms.add('os.path.abspath axioms')
@@ -463,9 +500,10 @@ def abspath(ctx, p):
 
 def realpath(ctx, sigma, p):
     r = realpath_f(sigma, p)
-    key = ('realpath', sigma.get_id(), p.get_id())
+    key = ('realpath', tid(sigma), tid(p))
     if key not in ctx.notes:
         ctx.notes[key] = True
-        ctx.used_axioms.add('os.path.realpath axioms')
-        ctx.assume(is_abs_clean(r))
+        ctx.used_axioms.add("os.path.realpath: absolute, normalised, no '//' "
+                            "(the POSIX leading '//' spelling is not considered)")
+        ctx.assume(z3.And(z3.PrefixOf(SLASH, r), clean_path(r)))
     return r
